@@ -14,17 +14,22 @@ PROP = {'gen': [],
                'loop can observe them and every kernel schedule: an invariant kept by every move and every poll (unanswered wake => byte '
                'in the socket; unanswered SIGWINCH => flag set; input returned ++ queued ++ waiting = arrived), a wake in the pipeline is '
                'returned or stays in the pipeline through every poll, an iteration that passes select with a byte in the socket queues '
-               'Wake, a poll with a wake in the pipeline never sleeps and, once the Wake is queued, ends within |pending|+1 iterations (at '
-               'once when the tty takes nothing; other events keep the flush-first contract), a returning poll returns the oldest event (FIFO), a flagged termination signal makes the iteration return an '
+               'Wake (likewise SIGWINCH flagged with the signal pipe readable queues Resize), a poll with a wake in the pipeline never sleeps and, once the Wake is '
+               'queued, ends within |pending|+1 iterations NOT COUNTING iterations cut short by EINTR (each needs a signal of its own; the bound says nothing '
+               'about a storm of signals), at once when the tty takes nothing; ONLY wake requests have such a bound: every other event keeps the flush-first '
+               'contract, i.e. with output queued and a peer that does not read, poll(None) does not return a key, a Resize or a quit error until the peer '
+               'reads (proved: C17_key_waits_for_the_flush_example); a returning poll returns the oldest event (FIFO), a flagged termination signal makes the iteration return an '
                'error, every returning path of dispose restores the saved line settings (unless the tty is gone) and has queued the '
-               'closing sequence, which is delivered whenever the tty accepts the slice in the first iteration. The model is tied to the code by scripted pty sessions whose poll results, restored '
+               'closing sequence, which is delivered whenever the tty accepts the slice in the first iteration, or accepts at least one byte in each of '
+               '|slice in flight ++ closing| + 2 iterations of the first poll with no wake request interfering (short writes). The model is tied to the code by scripted pty sessions whose poll results, restored '
                'settings and closing sequence it predicts. Real preemption inside system calls, signal latency and wall-clock bounds '
                'are not exhibited by the model.',
  'level_note': 'proof of the modelled state machine + scripted correspondence; partial. Trusted: Coq kernel + vm_compute; hand-written '
                'model IO/PollLoop.v; assumption select_level_triggered (select reports exactly the descriptors that are ready when it '
                'is called); signal-hook semantics as read from its source (pipe drained, flags in signal-number order); the decoder is '
-               'abstracted to tokens (C02/C03). Defects found and fixed: de62e95, 68e120b, 1cf853f+afe2796 (wake only), adc719b, ab83088, 58259f6; domain '
-               'assumption: the peer eventually reads. No axioms.',
+               'abstracted to tokens (C02/C03). Defects found and fixed: de62e95, 68e120b, 1cf853f+afe2796 (wake only), adc719b, ab83088, 58259f6, e293376 (escape sequence resize '
+               'mode, which the model does not cover: pty scenario only); domain assumptions: the peer eventually reads (closing sequence; every event other '
+               'than Wake under poll(None) with output queued). Timing checks of the pty sessions allow scripted wait * 1.25 + 250 ms. No axioms.',
  'technique': 'Coq proof (invariants of a transition system under arbitrary schedules) + scripted pty correspondence; partial',
  'design_ref': 'DESIGN.md 6.17',
  'n_quick': 300,
@@ -43,7 +48,12 @@ PROP = {'gen': [],
                  'time is abstract: the loop test sees an arbitrary (schedule-given) answer to `timeout_instant < now`',
                  'input is modelled as already decoded tokens; a read returns a non-empty prefix of the waiting tokens',
                  'no panic in the crate during poll/dispose (C16 for the queue); panics as crash points are not modelled',
-                 'the peer eventually reads: the closing sequence cannot be delivered to a peer that never does (dispose waits 1 s per poll)',
+                 'the peer eventually reads: the closing sequence cannot be delivered to a peer that never does (dispose waits 1 s per poll, 3 s overall)',
+                 'the peer eventually reads, second consequence: poll flushes first, so with output queued and a peer that does not read, poll(None) returns '
+                 'no key / Resize / quit error until the peer reads again (a finite timeout returns at the timeout); only a wake request is delivered at once. '
+                 'Applications that must react to signals under a stalled terminal have to poll with a timeout or wake themselves',
+                 'iteration bounds (|pending|+1, +2) do not count iterations in which select fails with EINTR',
+                 'escape sequence resize mode (size queried from the terminal on SIGWINCH) is outside the model; it is run on the pty only',
                  'wake(): the one-byte write on the non-blocking waker socket succeeds or fails with EAGAIN (EINTR, also swallowed by the '
                  'code, does not occur there)',
                  'arrival order is per source; events of different sources ready in the same iteration are queued signals, waker, input']}
